@@ -35,9 +35,12 @@ def run_seed_for(base_seed, prop, index):
     return int.from_bytes(h[:8], 'big')
 
 
-class Violation(Exception):
+class Violation(BaseException):
+    """Not an Exception subclass: executors wrap PGPy calls in broad `except Exception` clauses and
+    a reported violation must never be swallowed by one of those."""
+
     def __init__(self, signature, message, step=None):
-        Exception.__init__(self, message)
+        BaseException.__init__(self, message)
         self.signature = signature
         self.message = message
         self.step = step
